@@ -33,12 +33,19 @@ import (
 var grid = [][]float32{{1, 1}, {2, 1}, {1, 3}, {3, 2}, {4, 1}, {2, 5}, {5, 3}, {3, 7}}
 var queries = [][]float32{{1.3, 0.9}, {2.6, 2.2}, {0.7, 3.1}, {4.4, 1.7}}
 
+// the second grid has parallel vectors (scaled copies): under the cosine metric their mutual distance is zero up to
+// rounding, the place where a distance can come out as a tiny negative number; two of its queries are parallel to
+// stored points as well. Queries whose exact ranking has ties are checked for completeness instead of order.
+var parallelGrid = [][]float32{{1, 1}, {2, 2}, {3, 1}, {6, 2}, {1, 3}, {0.5, 1.5}, {7, 7}, {3, 9}}
+var parallelQueries = [][]float32{{3, 3}, {1.5, 0.5}, {2.6, 2.2}, {0.7, 3.1}}
+
 type cfg struct {
 	Space     string
 	M         int
 	Heuristic bool
 	Extend    bool
 	Policy    int
+	Parallel  bool `json:",omitempty"` // points and queries from the grid with parallel vectors
 }
 
 type caseT struct {
@@ -55,7 +62,16 @@ func pid(i int) uuid.UUID {
 	return u
 }
 
-func check(c caseT) (string, string) {
+func check(c caseT) (key, desc string) {
+	defer func() {
+		if r := recover(); r != nil {
+			key, desc = "panic", fmt.Sprintf("%+v panicked: %v", c, r)
+		}
+	}()
+	grid, queries := grid, queries
+	if c.Cfg.Parallel {
+		grid, queries = parallelGrid, parallelQueries
+	}
 	n := len(c.Points)
 	opts := []index.HnswOption{index.HnswM(c.Cfg.M), index.HnswEf(n), index.HnswEfConstruction(n)}
 	if c.Cfg.Heuristic {
@@ -80,7 +96,21 @@ func check(c caseT) (string, string) {
 		sort.Slice(all, func(i, j int) bool { return all[i].d < all[j].d })
 		for i := 1; i < len(all); i++ {
 			if all[i].d == all[i-1].d {
-				goto nextQuery // tie: exact order is not defined for this query/metric
+				// tie: the exact order is not defined for this query/metric; what remains of the clause is that a beam
+				// covering the collection returns all of it, in ascending order of the true distances
+				res, err := ix.Search(context.Background(), q, uint(n))
+				if err != nil {
+					return "search-error", fmt.Sprintf("%v", err)
+				}
+				if len(res) != n {
+					return "missing-items", fmt.Sprintf("n=%d M=%d: Search(%v,%d) returned %d items", n, c.Cfg.M, q, n, len(res))
+				}
+				for j := range res {
+					if res[j].Score != all[j].d {
+						return "not-exact", fmt.Sprintf("n=%d M=%d: Search(%v,%d): score %v at rank %d, exact ranking has %v", n, c.Cfg.M, q, n, res[j].Score, j, all[j].d)
+					}
+				}
+				goto nextQuery
 			}
 		}
 		for k := 1; k <= n; k++ {
@@ -315,9 +345,12 @@ func main() {
 	var cfgs []cfg
 	for _, sp := range []string{"euclidean", "manhattan", "cosine"} {
 		for _, pol := range []int{0, 1} {
-			cfgs = append(cfgs, cfg{sp, 2, false, false, pol}, cfg{sp, 2, true, false, pol})
+			cfgs = append(cfgs, cfg{sp, 2, false, false, pol, false}, cfg{sp, 2, true, false, pol, false})
 			if thorough {
-				cfgs = append(cfgs, cfg{sp, 2, true, true, pol}, cfg{sp, 1, false, false, pol})
+				cfgs = append(cfgs, cfg{sp, 2, true, true, pol, false}, cfg{sp, 1, false, false, pol, false})
+			}
+			if sp == "cosine" && (pol == 0 || thorough) {
+				cfgs = append(cfgs, cfg{sp, 2, false, false, pol, true}, cfg{sp, 2, true, false, pol, true})
 			}
 		}
 	}
@@ -407,6 +440,7 @@ func main() {
 	}
 	run.Assumptions = []string{
 		"clause 1 (directed part): n = 2M+1 for M in {4, 16 = library default, 32}: 2M clustered points + one far outlier, outlier and one level-1 vertex at {first, middle, last}; k in {1,2,M,n-1,n}",
+		"clause 1, cosine metric: a second 8-point grid with scaled copies (parallel vectors, mutual cosine distance zero up to rounding) and queries parallel to stored points; a query whose exact ranking has ties is checked for completeness and ascending true scores at k = n",
 		"clause 1: 8-point grid in R^2, n <= 2M+1 (M=2: n<=5; quick n<=4), levels {0,1,2}^n, ef = efConstruction = n, queries with pairwise distinct distances (tied queries skipped), map-order policies {ascending, descending}",
 		"clause 2 is evaluated on a fixed finite family of random collections (default parameters) and is a SAMPLE of its quantifier, not exhaustive",
 	}
